@@ -1,6 +1,7 @@
 package main
 
 import (
+	"go/token"
 	"sort"
 	"strings"
 
@@ -314,4 +315,115 @@ func sameOrigin(a, b ssa.Value) bool {
 		}
 	}
 	return false
+}
+
+// ---------------------------------------------------------------- KEY5
+
+// specialise returns a phi-edge filter for fn under the assumption param == val.
+func specialise(fn *ssa.Function, param *ssa.Parameter, val bool) func(phi *ssa.Phi, i int) bool {
+	cut := map[edge]bool{}
+	for _, b := range fn.Blocks {
+		if len(b.Instrs) == 0 {
+			continue
+		}
+		iff, ok := b.Instrs[len(b.Instrs)-1].(*ssa.If)
+		if !ok {
+			continue
+		}
+		if iff.Cond == ssa.Value(param) {
+			cut[edge{b, !val}] = true
+		}
+	}
+	live := map[*ssa.BasicBlock]bool{}
+	var stack []*ssa.BasicBlock
+	if len(fn.Blocks) > 0 {
+		live[fn.Blocks[0]] = true
+		stack = append(stack, fn.Blocks[0])
+	}
+	for len(stack) > 0 {
+		b := stack[len(stack)-1]
+		stack = stack[:len(stack)-1]
+		for i, s := range b.Succs {
+			if len(b.Succs) == 2 && cut[edge{b, i == 0}] {
+				continue
+			}
+			if !live[s] {
+				live[s] = true
+				stack = append(stack, s)
+			}
+		}
+	}
+	return func(phi *ssa.Phi, i int) bool {
+		if phi.Parent() != fn {
+			return true
+		}
+		pred := phi.Block().Preds[i]
+		if !live[pred] {
+			return false
+		}
+		if len(pred.Succs) == 2 {
+			// which branch leads to the phi's block?
+			for j, s := range pred.Succs {
+				if s == phi.Block() && cut[edge{pred, j == 0}] && pred.Succs[1-j] != phi.Block() {
+					return false
+				}
+			}
+		}
+		return true
+	}
+}
+
+func ruleKEY5(c *Ctx) []Ob {
+	o := newObs(c, "KEY5")
+	for _, fn := range c.LibFuncs {
+		if strings.HasPrefix(c.pkgRel(fn), "store/") || fn.Parent() != nil {
+			continue
+		}
+		// the reverse flag: a bool parameter whose negation is the direction passed to Tx.Cursor
+		var rev *ssa.Parameter
+		allCalls(fn, func(call ssa.CallInstruction) {
+			if !c.isInvokeOf(call, "store", "Tx", "Cursor") {
+				return
+			}
+			if u, ok := call.Common().Args[0].(*ssa.UnOp); ok && u.Op == token.NOT {
+				if p, ok := u.X.(*ssa.Parameter); ok {
+					rev = p
+				}
+			}
+		})
+		if rev == nil {
+			continue
+		}
+		k := &keyEvaluator{c: c, phiLive: specialise(fn, rev, true)}
+		allCalls(fn, func(call ssa.CallInstruction) {
+			if !c.isInvokeOf(call, "store", "Cursor", "Seek") {
+				return
+			}
+			ts := k.expand(k.eval(call.Common().Args[0], nil, 0, map[ssa.Value]bool{}), 0)
+			key := c.fname(fn) + "/reverse Seek"
+			pos := relPath(c, call.Pos())
+			if len(ts) == 0 {
+				o.add(UNDECIDED, key, pos, "seek target not evaluable under %s = true", rev.Name())
+				return
+			}
+			bad := ""
+			for _, t := range ts {
+				t = t.norm()
+				if t.isNil() || len(t) == 0 {
+					continue
+				}
+				last := t[len(t)-1]
+				if last.K == pLit && strings.HasSuffix(last.S, "\xff") {
+					continue
+				}
+				bad = t.String()
+			}
+			if bad != "" {
+				o.add(VIOLATED, key, pos, "with %s = true the cursor is positioned at %s, a strict prefix of the stored keys (which continue with the document id): a reverse seek lands on the last key <= target, i.e. before every entry carrying the bound value, so an inclusive upper bound (and an equality range) loses its entries in descending scans", rev.Name(), bad)
+			} else {
+				o.add(OK, key, pos, "every reverse seek target carries the 0xFF upper sentinel")
+			}
+		})
+	}
+	return o.list
 }
